@@ -138,7 +138,6 @@ def box_model(ctx):
     # read into a box that has been used before (reciprocal cache filled)
     old = _box_obj(ctx, symarray('w', (3, 3), real=True), symarray('q', (3,), real=True), recip='STALE')
     ev = _ev(ctx, BOX)
-    ev.skip = _is_cleanup
     try:
         p = ev.run_fn(fn, [old], {'model': m})
     except WouldRaise as e:
@@ -153,19 +152,9 @@ def box_model(ctx):
     ctx.ob('BOX-MODEL', loc, 'reading the model back gives the written vectors and origin (unit undone)', bool(ok), node=fn, key='read values')
     ctx.ob('BOX-MODEL', loc, 'reading into a box that was used before resets its reciprocal-vector cache (the vectors go through the cell setter)', old.attrs.get('_Box__reciprocal_vects') is None,
            'cache after reading: %r' % (old.attrs.get('_Box__reciprocal_vects'),), node=fn, key='read cache')
-    # the setter's round-off clean-up must not depend on the working units active when the model is read
+    # the setter's round-off clean-up must not depend on the working units active when the model is read: the setter interpreted on concrete cells at three scales
     from . import c01
-    setter = ctx.fn(BOX, 'Box.vects', setter=True)
-    cl = [s_ for s_ in setter.body if c01._is_cleanup(s_)]
-    for s_ in cl:
-        tgt = s_.targets[0]
-        test = None
-        for x in ast.walk(tgt.slice):
-            if isinstance(x, ast.Call) and norm(x.func).endswith('isclose') and x.args:
-                test = x.args[0]
-        deg = c01._degree(test) if test is not None else None
-        ctx.ob('BOX-MODEL', BOX + '::Box.vects.setter', 'the near-zero clean-up applied when a cell is read tests a quantity that is relative to the largest component, so a cell survives being read under other working units (e.g. metres)',
-               deg == 0, 'tested quantity %s is not scale-free' % (norm(test) if test is not None else '?'), node=s_, key='cleanup scale-free')
+    c01.scale_free_cleanup(ctx, 'BOX-MODEL')
 
 
 class AtomsM(PyStub):
@@ -314,7 +303,7 @@ def system_model(ctx):
             q = [x for x in ev.block([blocks[0]], [Path(dict(env0))]) if x.done is None]
             ctx.need(len(q) == 1, 'System(model=...) branch does not reduce to one path')
             e1 = q[0].env
-            me2 = SymObj(None, {'atoms': made['atoms'], 'box': box}, 'self')
+            me2 = SymObj(ctx.fn(SYS, 'System'), {'_System__atoms': made['atoms'], '_System__box': box}, 'self')
             e1['self'] = me2
             q2 = [x for x in ev.block([blocks[1]], [Path(e1)]) if x.done is None]
             ctx.need(len(q2) == 1, 'System(model=...) scaled branch does not reduce to one path')
